@@ -214,6 +214,43 @@ static void h_echo(coap_resource_t *r, coap_session_t *s, const coap_pdu_t *req,
     coap_pdu_set_code(resp, COAP_RESPONSE_CODE_INTERNAL_ERROR);
 }
 
+/* handler that keeps a per-request cache entry (coap_cache_*): first call creates it with a
+ * counter as application data, later calls find it and count */
+static int n_cache_new = 0, n_cache_hit = 0, cache_no_pdu = 0;
+static void cache_free_cb(void *d) {
+  coap_free_type(COAP_STRING, d);
+}
+static void h_cache(coap_resource_t *r, coap_session_t *s, const coap_pdu_t *req,
+                    const coap_string_t *q, coap_pdu_t *resp) {
+  (void)r; (void)q;
+  W.n_get++;
+  coap_cache_entry_t *e = coap_cache_get_by_pdu(s, req, COAP_CACHE_IS_SESSION_BASED);
+  if (!e) {
+    e = coap_new_cache_entry(s, req, COAP_CACHE_RECORD_PDU, COAP_CACHE_IS_SESSION_BASED, 0);
+    if (!e) {
+      coap_pdu_set_code(resp, COAP_RESPONSE_CODE_INTERNAL_ERROR);
+      return;
+    }
+    int *cnt = (int *)coap_malloc_type(COAP_STRING, sizeof(int));
+    if (!cnt) {
+      coap_delete_cache_entry(coap_session_get_context(s), e);
+      coap_pdu_set_code(resp, COAP_RESPONSE_CODE_INTERNAL_ERROR);
+      return;
+    }
+    *cnt = 0;
+    coap_cache_set_app_data(e, cnt, cache_free_cb);
+    n_cache_new++;
+  } else {
+    n_cache_hit++;
+  }
+  if (!coap_cache_get_pdu(e)) cache_no_pdu++;     /* asked for with COAP_CACHE_RECORD_PDU */
+  int *cnt = (int *)coap_cache_get_app_data(e);
+  char buf[16];
+  int n = snprintf(buf, sizeof(buf), "c%d", cnt ? ++*cnt : -1);
+  coap_pdu_set_code(resp, COAP_RESPONSE_CODE_CONTENT);
+  coap_add_data(resp, (size_t)n, (const uint8_t *)buf);
+}
+
 static void h_loop(coap_resource_t *r, coap_session_t *s, const coap_pdu_t *req,
                    const coap_string_t *q, coap_pdu_t *resp) {
   (void)r; (void)s; (void)req; (void)q;
@@ -685,6 +722,90 @@ static void sc_echo(void) {
   world_down();
 }
 
+static void sc_cache(void) {
+  /* coap_cache_derive_key / coap_new_cache_entry / lookup / application data with release
+   * callback; the entries are released with the context */
+  prologue(COAP_BLOCK_USE_LIBCOAP | COAP_BLOCK_SINGLE_BODY);
+  coap_resource_t *r = mkres("cache", h_cache, NULL);
+  if (r) coap_add_resource(W.srv, r);
+  static const uint16_t ign[] = {COAP_OPTION_RTAG};
+  R("ignore=%d", coap_cache_ignore_options(W.srv, ign, 1));
+  one_request("c1", COAP_MESSAGE_CON, COAP_REQUEST_CODE_GET, "cache");
+  one_request("c2", COAP_MESSAGE_CON, COAP_REQUEST_CODE_GET, "cache");
+  if (W.last_code == COAP_RESPONSE_CODE_CONTENT && n_cache_new + n_cache_hit == 2 && n_cache_new == 1 &&
+      W.last_hash != fnv((const uint8_t *)"c2", 2))
+    R("bad=cache-counter-wrong");
+  if (cache_no_pdu) R("bad=cache-entry-without-the-recorded-pdu");
+  finish_with_canary();
+  world_down();
+}
+
+static void sc_multi(void) {
+  /* several client sessions, a server that keeps at most two idle sessions, idle time-out and
+   * re-creation of a server session */
+  prologue(COAP_BLOCK_USE_LIBCOAP | COAP_BLOCK_SINGLE_BODY);
+  coap_context_set_max_idle_sessions(W.srv, 2);
+  coap_context_set_session_timeout(W.srv, 30);
+  coap_session_t *extra[2] = {NULL, NULL};
+  one_request("s0", COAP_MESSAGE_CON, COAP_REQUEST_CODE_GET, "r");
+  for (int i = 0; i < 2; i++) {
+    extra[i] = vn_new_client(W.cli, &W.ep->bind_addr);
+    R("sess%d=%d", i, extra[i] != NULL);
+    if (!extra[i]) continue;
+    coap_session_t *keep = W.cs;
+    W.cs = extra[i];
+    one_request(i ? "s2" : "s1", COAP_MESSAGE_NON, COAP_REQUEST_CODE_GET, "r");
+    W.cs = keep;
+  }
+  /* let the server's idle sessions expire, then talk again on the first session */
+  vn_advance(60000);
+  pump(5000);
+  one_request("again", COAP_MESSAGE_CON, COAP_REQUEST_CODE_GET, "r");
+  finish_with_canary();
+  for (int i = 0; i < 2; i++)
+    if (extra[i]) {
+      vn_unregister_client(extra[i]);
+      coap_session_release(extra[i]);
+    }
+  world_down();
+}
+
+static void sc_qblock(void) {
+  /* RFC 9177 Q-Block negotiated on both sides: NON upload and NON download of multi-block
+   * bodies (the recovery logic is only exercised as far as the scripted loss-free network and
+   * the injected failures take it) */
+  prologue(COAP_BLOCK_USE_LIBCOAP | COAP_BLOCK_SINGLE_BODY | COAP_BLOCK_TRY_Q_BLOCK);
+  coap_pdu_t *p = mk_req(W.cs, COAP_MESSAGE_NON, COAP_REQUEST_CODE_PUT, "up", NULL, NULL);
+  R("pdu=%d", p != NULL);
+  if (p) {
+    int a = coap_add_data_large_request(W.cs, p, UP_LEN, up_body, NULL, NULL);
+    R("large=%d", a);
+    if (!a) {
+      coap_delete_pdu(p);
+      p = NULL;
+    }
+  }
+  if (p) R("send=%d", send_tracked(W.cs, p) != COAP_INVALID_MID);
+  pump(300000);
+  R("resp=%d code=%d put=%d putlen=%zu", W.n_resp, W.last_code, W.n_put, W.put_len);
+  if (W.n_put && (W.put_len != UP_LEN || W.put_hash != fnv(up_body, UP_LEN)))
+    R("bad=wrong-body-at-server");
+  int before = W.n_resp;
+  W.last_code = 0;
+  W.last_len = 0;
+  p = mk_req(W.cs, COAP_MESSAGE_NON, COAP_REQUEST_CODE_GET, "big", NULL, NULL);
+  R("pdu2=%d", p != NULL);
+  if (p) R("send2=%d", send_tracked(W.cs, p) != COAP_INVALID_MID);
+  pump(300000);
+  R("resp2=%d code=%d len=%zu", W.n_resp - before, W.last_code, W.last_len);
+  if (W.n_resp > before && W.last_code == COAP_RESPONSE_CODE_CONTENT) {
+    if (W.last_len < BIG_LEN) R("bad=partial-body-delivered");
+    else if (W.last_len != BIG_LEN || W.last_hash != fnv(big_body, BIG_LEN)) R("bad=corrupt-body");
+  }
+  finish_with_canary();
+  world_down();
+}
+
 static void sc_async(void) {
   /* separate response through coap_register_async (empty ACK first, CON response later) */
   prologue(COAP_BLOCK_USE_LIBCOAP | COAP_BLOCK_SINGLE_BODY);
@@ -1065,6 +1186,7 @@ static const scen_t scens[] = {
   {"pdu", sc_pdu},           {"teardown_busy", sc_teardown_busy}, {"resp508", sc_resp508},
   {"async", sc_async},       {"unknown", sc_unknown},   {"ping", sc_ping},
   {"oscore", sc_oscore},     {"obs_big", sc_obs_big},   {"echo", sc_echo},
+  {"cache", sc_cache},       {"multi", sc_multi},       {"qblock", sc_qblock},
   {NULL, NULL}};
 
 /* ------------------------------------------------------------------ child / parent */
